@@ -9,14 +9,17 @@ for ID in ids:
     for d in sorted(glob.glob(os.path.join(out, ID, "m*"))):
         if not all(os.path.exists(os.path.join(d, f)) for f in ("patch.diff", "demo.py", "meta.json")):
             print("incomplete:", d); continue
-        name = f"{ID}-{os.path.basename(d)}"
+        # numbering continues after the highest index already stored for this property (earlier rounds are never overwritten)
+        import re
+        have = [int(re.search(r"-m(\d+)$", x).group(1)) for x in glob.glob(os.path.join(V, "seeded", f"{ID}-m*"))]
+        name = f"{ID}-m{max(have, default=0) + 1}"
         dst = os.path.join(V, "seeded", name)
         os.makedirs(dst, exist_ok=True)
         for f in ("patch.diff", "demo.py"):
             shutil.copy(os.path.join(d, f), dst)
         m = json.load(open(os.path.join(d, "meta.json")))
         m["breaks_property"] = ID
-        m["round"] = 3
+        m["round"] = int(os.environ.get("SEED_ROUND", "4"))
         m["confirmed"] = "by tools/seed_validate.py in a scratch worktree of /repo HEAD: demo.py PASS on the clean tree, FAIL with the patch, all 111 baseline tests still pass"
         json.dump(m, open(os.path.join(dst, "meta.json"), "w"), indent=1)
         names.append(name)
